@@ -59,6 +59,7 @@ class PDialect(Dialect):
 # option mappings kept by the caller and passed again and again (a module constant in user code); None: a fresh
 # mapping for every call
 SHARED: dict[tuple[str, ...], dict[str, Any]] | None = None
+FALSY_KEYS = False  # per run: write unrequested options into the mapping with a false value
 
 
 class ODialect(Dialect):
@@ -86,6 +87,14 @@ def mk_options(opts: list[str]) -> tuple[dict[str, Any] | None, Any]:
         d[AST_SERIALIZE_DIALECT_KEY] = ASTSerializationDialects.AST_TEST
     if "idx" in opts:
         d[SOURCE_OPTIMIZED_SERIALIZATION_KEY] = True
+    if FALSY_KEYS:
+        # computed flags: options that are NOT requested are present with a false value
+        if "skip" not in opts:
+            d[SerializationOption.SKIP_CLASS] = False
+        if "sort" not in opts:
+            d[SerializationOption.SORT_KEYS] = False
+        if "idx" not in opts:
+            d[SOURCE_OPTIMIZED_SERIALIZATION_KEY] = False
     if SHARED is not None and d:
         SHARED[key] = d
     return (d or None), _dia(opts)
@@ -205,6 +214,11 @@ class Judge:
         else:
             self.origin(o.origin, od, path + "/origin")
         for f in U.PROP_FIELDS[cls]:
+            if f.vt in ("optpath", "tpath") and f.name in d and d[f.name] is not None:
+                # Path values wrapped in Optional / tuple: the dialect's strategy reaches them too
+                for v in d[f.name] if isinstance(d[f.name], list) else [d[f.name]]:
+                    if self.dialect != (isinstance(v, str) and v.startswith("P:")):
+                        raise self.bad("C16.9 dialect-effect", f"C16.9:wrapped:{'missing' if self.dialect else 'leaked'}", f"wrapped Path value rendered as {v!r} with dialect={'on' if self.dialect else 'off'}", path)
             if f.vt == "path" and f.name in d:
                 v = d[f.name]
                 if self.dialect != (isinstance(v, str) and v.startswith("P:")):
@@ -387,8 +401,9 @@ class World:
         pcfg.ID_DIGEST_SIZE = cfg.get("digest", 8)
         pcfg.RUNTIME_TYPE_CHECK = False
         FAULTS.disarm()
-        global SHARED
+        global SHARED, FALSY_KEYS
         SHARED = {} if cfg.get("shared_opts") else None
+        FALSY_KEYS = bool(cfg.get("falsy_keys"))
         if len(NODE_REGISTRY) != 0:
             raise HarnessError("registry not pristine")
         self.builder = RW.World({"digest": cfg.get("digest", 8), "rtc": False, "gc": "exact"}, "none")
@@ -772,7 +787,7 @@ def make_config(rseed: int, prop: str, tier: str, faults: bool) -> dict[str, Any
     rng = Rng(rseed)
     r = rng.s("config")
     strpool = r.sample(U.STR_POOL, r.choice([2, 3, 5]))
-    leafs = ["LeafA", "LeafB", "Carrier", "Carrier", "Vals", "Upper"] + r.sample(["Meta", "LeafA2", "Lit", "Typed", "Located", "Both"], r.choice([0, 1, 3, 6]))
+    leafs = ["LeafA", "LeafB", "Carrier", "Carrier", "Vals", "Upper"] + r.sample(["Meta", "LeafA2", "Lit", "Typed", "Located", "Both", "Paths", "Paths", "LocalLeaf"], r.choice([0, 1, 3, 6]))
     return {
         "machine": NAME,
         "prop": prop,
@@ -783,6 +798,7 @@ def make_config(rseed: int, prop: str, tier: str, faults: bool) -> dict[str, Any
         "threads": r.random() < 0.3,
         "shared_opts": r.random() < 0.5,
         "nested": r.random() < 0.4,
+        "falsy_keys": r.random() < 0.3,
         "build": {
             "maxd": r.choice([2, 3]),
             "maxw": r.choice([2, 3, 4]),
